@@ -199,7 +199,11 @@ def impl(case):
                     pred = lambda res: res.outcome in faces  # noqa
                     r = explode(h, pred, limit=lim)
             elif api in ("H.explode", "P.explode"):
-                obj = H([(o, c) for o, c in case["h"]]) if api == "H.explode" else P(*[C.dec_h(d) for d in case["dice"]])
+                if api == "H.explode" and case.get("mixed"):
+                    # bare outcomes mixed with pairs: the stored order need not be ascending (natural_key fallback)
+                    obj = H([o if c == 1 else (o, c) for o, c in case["h"]])
+                else:
+                    obj = H([(o, c) for o, c in case["h"]]) if api == "H.explode" else P(*[C.dec_h(d) for d in case["dice"]])
                 kw = {}
                 if "max_depth" in case:
                     kw["max_depth"] = case["max_depth"]
@@ -412,6 +416,8 @@ def generate(rnd, tier, scale):
         elif r < 0.7:
             api = rnd.choice(["H.explode", "H.explode", "P.explode"])
             case = dict(api=api, h=h)
+            if api == "H.explode" and rnd.random() < 0.2:
+                case["mixed"] = True
             if api == "P.explode":
                 case = dict(api=api, dice=[[[C.enc_out(o), c] for o, c in _rand_hist(rnd, single=0.3)] for _ in range(rnd.randint(1, 2))])
             lim = _rand_lim(rnd, h)
